@@ -32,9 +32,10 @@ type Reg struct {
 }
 
 type Trig struct {
-	Reg   int `json:"reg"`
-	AtMs  int `json:"at"`
-	Burst int `json:"burst"`
+	Reg        int  `json:"reg"`
+	AtMs       int  `json:"at"`
+	Burst      int  `json:"burst"`
+	Concurrent bool `json:"concurrent,omitempty"` // the burst's calls come from as many goroutines at once
 }
 
 type Plan struct {
@@ -48,7 +49,7 @@ type Plan struct {
 
 func genPlan(t *rapid.T) Plan {
 	p := Plan{StopAt: rapid.SampledFrom([]int{0, 10, 100, 1000, 5000}).Draw(t, "stopat"),
-		StopKind: rapid.SampledFrom([]string{"StopAndWait", "StopAndWait", "Stop+StopAndWait", "ParentCancel"}).Draw(t, "stopkind"),
+		StopKind: rapid.SampledFrom([]string{"StopAndWait", "StopAndWait", "Stop+StopAndWait", "ParentCancel", "ParentDeadline"}).Draw(t, "stopkind"),
 		Stoppers: rapid.IntRange(1, 3).Draw(t, "stoppers"), Storm: rapid.SampledFrom([]int{0, 0, 4, 16}).Draw(t, "storm")}
 	n := rapid.IntRange(1, 5).Draw(t, "nregs")
 	for i := 0; i < n; i++ {
@@ -66,14 +67,26 @@ func genPlan(t *rapid.T) Plan {
 		r.Interval = rapid.SampledFrom([]int{10, 100, 300}).Draw(t, "interval")
 		r.Jitter = rapid.SampledFrom([]int{0, 1, r.Interval / 2, r.Interval - 1}).Draw(t, "jitter")
 		r.RunMs = rapid.SampledFrom([]int{0, 1, 5, r.Interval * 2}).Draw(t, "run")
+		if r.Kind == "PeriodicOrTrigger" && rapid.Bool().Draw(t, "slowpot") {
+			// runs longer than the interval: the tick fires during the run, so a trigger made during the run
+			// finds both the timer channel and the trigger channel ready
+			r.RunMs = r.Interval * rapid.IntRange(2, 3).Draw(t, "slowfactor")
+			r.Jitter = 0
+		}
 		p.Regs = append(p.Regs, r)
 	}
 	m := rapid.IntRange(0, 12).Draw(t, "ntrigs")
 	for i := 0; i < m; i++ {
-		tr := Trig{Reg: rapid.IntRange(0, n-1).Draw(t, "treg"), Burst: rapid.IntRange(1, 3).Draw(t, "burst")}
+		tr := Trig{Reg: rapid.IntRange(0, n-1).Draw(t, "treg"), Burst: rapid.IntRange(1, 3).Draw(t, "burst"), Concurrent: rapid.Bool().Draw(t, "conc")}
+		if tr.Concurrent {
+			tr.Burst = rapid.IntRange(2, 8).Draw(t, "cburst")
+		}
 		reg := p.Regs[tr.Reg]
 		if rapid.Bool().Draw(t, "aimed") { // aimed at a run of its function: during it, at its end, right after it
 			k := rapid.IntRange(0, 3).Draw(t, "nth")
+			if reg.Kind == "PeriodicOrTrigger" || reg.Kind == "Periodic" {
+				k += 1 + reg.Interval/(reg.RunMs+1) // the first run starts one interval after registration
+			}
 			tr.AtMs = reg.AtMs + k*(reg.RunMs+1) + rapid.SampledFrom([]int{0, 1, reg.RunMs / 2, reg.RunMs, reg.RunMs + 1}).Draw(t, "off")
 		} else {
 			tr.AtMs = rapid.SampledFrom([]int{0, 1, 2, 5, 10, 11, 50, 99, 100, 500, 999, 1000}).Draw(t, "tat")
@@ -128,6 +141,11 @@ type event struct {
 func script(p Plan, out *vk.Outcome) error {
 	parent, parentCancel := context.WithCancel(context.Background())
 	defer parentCancel()
+	if p.StopKind == "ParentDeadline" { // the parent context ends by deadline exactly at the stop time
+		var c2 context.CancelFunc
+		parent, c2 = context.WithTimeout(parent, time.Duration(p.StopAt)*time.Millisecond)
+		defer c2()
+	}
 	g := xsync.NewGroup(parent)
 	var mu sync.Mutex
 	var runs, stormRuns []*runRec
@@ -208,6 +226,20 @@ func script(p Plan, out *vk.Outcome) error {
 			if fn == nil {
 				continue
 			}
+			if tr.Concurrent {
+				var cw sync.WaitGroup
+				gate := make(chan struct{})
+				for b := 0; b < tr.Burst; b++ {
+					mu.Lock()
+					trigs = append(trigs, trigRec{tr.Reg, sk.Tick(), time.Now()})
+					mu.Unlock()
+					cw.Add(1)
+					go func() { defer cw.Done(); <-gate; fn() }()
+				}
+				close(gate)
+				cw.Wait()
+				continue
+			}
 			for b := 0; b < tr.Burst; b++ {
 				mu.Lock()
 				trigs = append(trigs, trigRec{tr.Reg, sk.Tick(), time.Now()})
@@ -249,6 +281,9 @@ func script(p Plan, out *vk.Outcome) error {
 				g.StopAndWait()
 			case "ParentCancel":
 				parentCancel()
+				g.StopAndWait()
+			case "ParentDeadline":
+				synctest.Wait() // the deadline has fired by now
 				g.StopAndWait()
 			default:
 				g.StopAndWait()
@@ -501,4 +536,96 @@ func runStorm(p StormPlan) (out vk.Outcome, verr error) {
 func TestStopStorm(t *testing.T) {
 	theT = t
 	vk.Run(t, suite, "stop-storm", 400, genStorm, runStorm)
+}
+
+// ---------------------------------------------------------------------------------------------
+// first calls of a trigger function racing each other, then triggers during runs: runs never overlap
+
+type FirstCallPlan struct {
+	Kind    string `json:"kind"` // Trigger | PeriodicOrTrigger
+	Callers int    `json:"callers"`
+	Rounds  int    `json:"rounds"`
+	Later   int    `json:"later"` // trigger calls made afterwards, while runs are in progress
+}
+
+func genFirstCall(t *rapid.T) FirstCallPlan {
+	return FirstCallPlan{Kind: rapid.SampledFrom([]string{"Trigger", "Trigger", "PeriodicOrTrigger"}).Draw(t, "kind"),
+		Callers: rapid.IntRange(2, 8).Draw(t, "callers"), Rounds: rapid.IntRange(10, 40).Draw(t, "rounds"), Later: rapid.IntRange(1, 4).Draw(t, "later")}
+}
+
+func runFirstCall(p FirstCallPlan) (out vk.Outcome, verr error) {
+	var stuck string
+	func() {
+		defer func() {
+			if r := recover(); r != nil {
+				stuck = fmt.Sprint(r)
+			}
+		}()
+		synctest.Test(theT, func(t *testing.T) {
+			defer func() {
+				if r := recover(); r != nil {
+					verr = vk.Violf("panic", "panic inside bubble: %v", r)
+				}
+			}()
+			for round := 0; round < p.Rounds && verr == nil; round++ {
+				g := xsync.NewGroup(context.Background())
+				var mu sync.Mutex
+				active, maxActive, runs := 0, 0, 0
+				f := func(ctx context.Context) {
+					mu.Lock()
+					active++
+					runs++
+					if active > maxActive {
+						maxActive = active
+					}
+					mu.Unlock()
+					time.Sleep(2 * time.Millisecond)
+					mu.Lock()
+					active--
+					mu.Unlock()
+				}
+				var fn func()
+				if p.Kind == "Trigger" {
+					fn = g.Trigger(f)
+				} else {
+					fn = g.PeriodicOrTrigger(time.Hour, 0, f)
+				}
+				gate := make(chan struct{})
+				var cw sync.WaitGroup
+				for k := 0; k < p.Callers; k++ {
+					cw.Add(1)
+					go func() { defer cw.Done(); <-gate; fn() }()
+				}
+				close(gate)
+				cw.Wait()
+				for k := 0; k < p.Later; k++ {
+					time.Sleep(time.Millisecond) // a run is in progress now
+					fn()
+					fn()
+				}
+				time.Sleep(20 * time.Millisecond)
+				g.StopAndWait()
+				mu.Lock()
+				ma, rn := maxActive, runs
+				mu.Unlock()
+				if ma > 1 {
+					verr = vk.Violf("overlap", "round %d: %d runs of one %s function were in progress at the same time (%d racing first calls of the trigger function)", round, ma, p.Kind, p.Callers)
+				}
+				if rn == 0 {
+					verr = vk.Violf("trigger-lost", "round %d: the function never ran although it was triggered %d times", round, p.Callers+2*p.Later)
+				}
+			}
+		})
+	}()
+	if stuck != "" && verr == nil {
+		verr = vk.Violf("stuck", "%s", stuck)
+	}
+	out.NonTrivial = true
+	out.Execs = p.Rounds
+	return out, verr
+}
+
+func TestTriggerFirstCallRace(t *testing.T) {
+	theT = t
+	vk.Run(t, suite, "trigger-first-call", 250, genFirstCall, runFirstCall)
 }
